@@ -239,18 +239,36 @@ def mc_main_execution(spec):
     logging.disable(logging.CRITICAL)
     import matplotlib
     matplotlib.use('Agg')
+    d = tempfile.mkdtemp(prefix='mc-')
+    relname = None
+    if spec.get('relative_out'):
+        # a RELATIVE result-file name in the settings file: main() resolves it against the directory of the Monte-Carlo package (it chdir()s
+        # there). The package is therefore imported from a private view (a directory of links to the real files), so that the file lands in
+        # this execution's own directory; a worker that is no longer in that directory when it appends its row writes somewhere else.
+        import geophires_monte_carlo as _g
+        real = os.path.dirname(os.path.abspath(_g.__file__))
+        pk = os.path.join(d, 'view', 'geophires_monte_carlo')
+        os.makedirs(pk)
+        for x in os.listdir(real):
+            if os.path.isfile(os.path.join(real, x)):
+                os.symlink(os.path.join(real, x), os.path.join(pk, x))
+        for k in [k for k in sys.modules if k == 'geophires_monte_carlo' or k.startswith('geophires_monte_carlo.')]:
+            del sys.modules[k]
+        sys.path.insert(0, os.path.join(d, 'view'))
+        relname = f'MC_Result_vf{os.getpid()}.txt'
     import geophires_monte_carlo.MC_GeoPHIRES3 as MC
     from vf.engines import poolx
     # requests the same process served earlier (a long-lived caller): run completely, results discarded
     for prior in spec.get('before') or []:
         mc_main_execution(dict(prior))
         poolx.CURRENT.update({'outcomes': None, 'chunks': None, 'assignment_used': None})
-    d = tempfile.mkdtemp(prefix='mc-')
     code, base_lines = BASES[spec['base']]
     base_in = os.path.join(d, 'base.txt')
     with open(base_in, 'w') as f:
         f.write('\n'.join(base_lines) + '\n')
     out = os.path.join(d, 'MC_Result.txt')
+    if relname:
+        out = os.path.join(os.path.dirname(os.path.abspath(MC.__file__)), relname)
     settings = os.path.join(d, 'settings.txt')
     with open(settings, 'w') as f:
         for i in spec['inputs']:
@@ -258,7 +276,7 @@ def mc_main_execution(spec):
         for o in spec['outputs']:
             f.write(f'OUTPUT, {o}\n')
         f.write(f"ITERATIONS, {spec['K']}\n")
-        f.write(f'MC_OUTPUT_FILE, {out}\n')
+        f.write(f'MC_OUTPUT_FILE, {relname or out}\n')
     script = None
     if spec.get('script'):
         sc = spec['script']     # {'ok': [[values per input] per ordinal], 'bad': [ordinals], 'bad_value': x}
@@ -301,6 +319,109 @@ def mc_main_execution(spec):
         res['json'] = None
     res['base_in'] = base_lines
     res['code'] = code
+    if relname:
+        # rows that went astray: the same relative name resolved against some other directory of the source tree
+        from vf.core import runner as _r
+        res['stray'] = []
+        for dp, dn, fn in os.walk(_r.repo_src()):
+            for x in fn:
+                if x.startswith(os.path.splitext(relname)[0]):
+                    res['stray'].append(os.path.relpath(os.path.join(dp, x), _r.repo_src()))
+                    os.unlink(os.path.join(dp, x))
+    import shutil
+    shutil.rmtree(d, ignore_errors=True)
+    return res
+
+
+def freeze_clock(t=1_700_000_000.0):
+    """environment answer "the clock does not advance between two operations": every time source the library can reach returns one instant."""
+    import time as _t
+    import datetime as _dt
+    st = _t.localtime(t)
+    real_strftime, real_dt, real_localtime = _t.strftime, _dt.datetime, _t.localtime
+    _t.time = lambda: t
+    _t.time_ns = lambda: int(t * 1e9)
+    _t.localtime = lambda secs=None: st if secs is None else real_localtime(secs)
+    _t.strftime = lambda fmt, tup=None: real_strftime(fmt, st if tup is None else tup)
+
+    class Frozen(real_dt):
+        @classmethod
+        def now(cls, tz=None):
+            return real_dt.fromtimestamp(t, tz)
+
+        @classmethod
+        def utcnow(cls):
+            return real_dt.utcfromtimestamp(t)
+
+        @classmethod
+        def today(cls):
+            return real_dt.fromtimestamp(t)
+    _dt.datetime = Frozen
+    for mod in list(sys.modules.values()):
+        n = getattr(mod, '__name__', '')
+        if n.split('.')[0] in ('geophires_monte_carlo', 'geophires_x', 'geophires_x_client', 'hip_ra_x', 'hip_ra'):
+            for k, v in list(vars(mod).items()):
+                if v is real_dt:
+                    setattr(mod, k, Frozen)
+
+
+REQ_SUPPORT = {'A': (40.0, 45.0), 'B': (55.0, 60.0)}
+
+
+def mc_client_sequence(spec):
+    """
+    Two Monte-Carlo requests WITHOUT an explicit result file, made and served through the public client in the order spec['order'] (a list of
+    'newA' | 'newB' | 'runA' | 'runB'), under the controlled pool. spec['clock']: 'frozen' (all operations within one clock instant) | 'real'.
+    Returns the result-file path and content of either request after the whole sequence.
+    """
+    import concurrent.futures
+    import numpy as real_np
+    import logging
+    logging.disable(logging.CRITICAL)
+    import matplotlib
+    matplotlib.use('Agg')
+    import geophires_monte_carlo as GMC
+    import geophires_monte_carlo.MC_GeoPHIRES3 as MC
+    from vf.engines import poolx
+    if spec['clock'] == 'frozen':
+        freeze_clock()
+    MC.np = make_np_proxy(real_np, None)
+    concurrent.futures.ProcessPoolExecutor = poolx.ControlledPool
+    d = tempfile.mkdtemp(prefix='mcq-')
+    K = spec['K']
+    files = {}
+    for who, (lo, hi) in REQ_SUPPORT.items():
+        b = os.path.join(d, f'base_{who}.txt')
+        with open(b, 'w') as f:
+            f.write('\n'.join(BASES['elec'][1]) + '\n')
+        st = os.path.join(d, f'settings_{who}.txt')
+        with open(st, 'w') as f:
+            f.write(f'INPUT, Gradient 1, uniform, {lo}, {hi}\nOUTPUT, Average Net Electricity Production\nITERATIONS, {K}\n')
+        files[who] = (Path(b), Path(st))
+    reqs, res = {}, {'ops': [], 'path': {}, 'file': {}}
+    real_np.random.seed(int(spec.get('seed', 0)))
+    for op in spec['order']:
+        kind, who = op[:3], op[3]
+        try:
+            if kind == 'new':
+                reqs[who] = GMC.MonteCarloRequest(GMC.SimulationProgram.GEOPHIRES, files[who][0], files[who][1])
+                res['path'][who] = str(reqs[who].output_file)
+            else:
+                poolx.CURRENT['assignment'] = list(spec['assignment'])
+                poolx.CURRENT.update({'outcomes': None, 'chunks': None, 'assignment_used': None})
+                GMC.GeophiresMonteCarloClient().get_monte_carlo_result(reqs[who])
+            res['ops'].append([op, 'ok'])
+        except BaseException as e:  # noqa
+            res['ops'].append([op, f'{type(e).__name__}: {str(e)[:200]}'])
+    for who in reqs:
+        try:
+            with open(res['path'][who]) as f:
+                res['file'][who] = f.read()
+        except OSError:
+            res['file'][who] = None
+    stray = [x for x in os.listdir(tempfile.gettempdir()) if x.startswith('MC_')]
+    res['stray_in_tmp'] = stray
+    reqs.clear()
     import shutil
     shutil.rmtree(d, ignore_errors=True)
     return res
